@@ -40,7 +40,9 @@
 
    Deliberately weak points (a false alarm on correct code is unacceptable):
    * "buffer space remains": in read/write mode the buffer holds bs bytes,
-     so space remains iff rd - dl < bs.  In splice mode the buffer is a
+     so space remains iff rd - dl < bs; bs is what the pump requests from
+     read() while its buffer is empty (InitB.bs is only the initial guess), so
+     a different BUF_SIZE is not an alarm.  In splice mode the buffer is a
      kernel pipe whose fill level is not observable; the only evidence of
      "full" is a would-block on input while FIONREAD says that input is
      available, and it lasts until the next byte is delivered.
@@ -91,7 +93,11 @@ BandsTag(m) ==
   ELSE "C17:bands:in-only"
 
 InStep(m, e) ==
-  CASE e.r > 0 -> [Chk(m, TRUE, e.a = m.rd, "X:in-pos", "X:in-pos") EXCEPT !.rd = @ + e.r]
+  CASE e.r > 0 -> [Chk(m, TRUE, e.a = m.rd, "X:in-pos", "X:in-pos")
+                     EXCEPT !.rd = @ + e.r,
+                            (* read/write mode: what the pump asks for while its buffer is
+                               empty is the capacity of that buffer *)
+                            !.bs = IF m.mode = "rw" /\ m.rd = m.dl THEN e.q ELSE @]
     [] e.r = 0 -> [m EXCEPT !.eof = TRUE]
     [] e.r = -2 -> [m EXCEPT !.err = 2]
     [] OTHER -> m
